@@ -75,6 +75,7 @@ cfg("MC_faults_args.cfg", fault_consts(FieldAlpha="<- AlphaArgsF", ArgOpts="<- A
 cfg("MC_faults_cs.cfg", fault_consts(FieldAlpha="<- AlphaCs", Aliases='= {""}', MaxFaults="= 1", MaxSel="= 3"), FAULT_INV, spec="SpecF")
 cfg("MC_faults_csm.cfg", fault_consts(FieldAlpha="<- AlphaCsM", OpTypes='= {"mutation"}', Aliases='= {""}', MaxFaults="= 1", MaxSel="= 3"), FAULT_INV, spec="SpecF")
 cfg("MC_exec_cs.cfg", exec_consts(FieldAlpha="<- AlphaCs", Aliases='= {""}', MaxSel="= 3"), EXEC_INV)
+cfg("MC_faults_gd.cfg", fault_consts(FieldAlpha="<- AlphaGdF", ArgOpts="<- ArgOptsFail", Aliases='= {"", "z"}', MaxFaults="= 1", MaxSel="= 3"), FAULT_INV, spec="SpecF")
 cfg("MC_faults_s2.cfg", fault_consts(FieldAlpha="<- AlphaS2", Aliases='= {""}', Conds='= {"", "Leaf"}', MaxFaults="= 1", MaxSel="= 3", **S2), FAULT_INV, spec="SpecF")
 cfg("MC_faults_s2g.cfg", fault_consts(FieldAlpha="<- AlphaS2G", Aliases='= {""}', MaxFaults="= 2", MaxSel="= 2", **S2), FAULT_INV, spec="SpecF")
 cfg("MC_faults_layout3.cfg", fault_consts(FieldAlpha="<- AlphaLayout", Aliases='= {""}', MaxFaults="= 2", MaxSel="= 3"), FAULT_INV, spec="SpecF")
@@ -194,5 +195,5 @@ cfg("MC_faults_simf.cfg", fault_consts(FieldAlpha="<- AlphaSimF", Aliases='= {""
 cfg("MC_faults_simw.cfg", fault_consts(FieldAlpha="<- AlphaWiden", Aliases='= {""}', Conds='= {"P", "A"}', DirOpts="<- NoDirs",
     MaxSel="= 4", MaxDepth="= 3", MaxFrags="= 1", MaxOps="= 1", MaxFaults="= 1"), FAULT_INV, spec="SpecF")
 # ---- R3 (schedules): large faulty requests drawn by TLC in simulation mode -----------------------------
-cfg("MC_faults_sim.cfg", fault_consts(FieldAlpha="<- AlphaAll", Aliases='= {"", "z"}', Conds='= {"", "T", "P", "A", "B", "C", "U"}', DirOpts="<- NoDirs",
-    ArgOpts="<- ArgOptsStd", MaxSel="= 9", MaxDepth="= 4", MaxFrags="= 1", MaxOps="= 1", OpTypes='= {"query", "mutation"}', MaxFaults="= 1"), FAULT_INV, spec="SpecF")
+cfg("MC_faults_sim.cfg", fault_consts(FieldAlpha="<- AlphaAllF", Aliases='= {"", "z"}', Conds='= {"", "T", "P", "A", "B", "C", "U"}', DirOpts="<- NoDirs",
+    ArgOpts="<- ArgOptsStdF", MaxSel="= 9", MaxDepth="= 4", MaxFrags="= 1", MaxOps="= 1", OpTypes='= {"query", "mutation"}', MaxFaults="= 1"), FAULT_INV, spec="SpecF")
